@@ -188,15 +188,17 @@ def objects(c, e, text: str, rep: Report, model: dict) -> None:
 def points(rep: Report) -> None:
     import random
     rng = random.Random(11)
-    names = ["x", "y", "z", "_a", "x1", "self", "theta", "é", "kwargs", "point", "Point", "__x__"]
+    names = ["x", "y", "z", "_a", "x1", "self", "theta", "é", "kwargs", "point", "Point", "__x__",
+             # legal variable names that keyword-argument syntax cannot express (F4): identifiers that NFKC
+             # normalisation changes, reserved words, digits first
+             "\u00b5", "\u017f", "\uff58", "\u212b", "class", "lambda", "None", "1x", "123", "\u03bc"]
     b = Batch()
     work = []
     for _ in range(150):
         ns = rng.sample(names, rng.randint(0, 4))
         d = {n: rng.choice([1, 2.5, -3, 0.0, -0.125, 1e22, 7, 1e-7] + HARD) for n in ns}
-        if any(keyword.iskeyword(n) or not n.isidentifier() for n in ns):
-            continue
-        asc = all(n.isascii() for n in ns)
+        plain = not any(keyword.iskeyword(n) or not n.isidentifier() for n in ns)
+        asc = plain and all(n.isascii() for n in ns)      # the model renders the keyword form only
         work.append((d, b.ask(f"F0 renderpoint {wire.point(d)}") if asc else None))
     b.run()
     for d, i in work:
@@ -207,7 +209,9 @@ def points(rep: Report) -> None:
         info = {"point": text}
         if str(p) != text:
             rep.violation("str(point) differs from repr(point)", info)
-        if back[0] != "ok" or not (back[1] == p):
+        stated = all(n.isidentifier() and not keyword.iskeyword(n) for n in d)     # what the property quantifies over
+        rep.count("point-names", "identifiers" if stated else "reserved-or-digit-first(not judged)")
+        if stated and (back[0] != "ok" or not (back[1] == p)):
             rep.violation(f"eval(repr(point)) != point: {text}", info)
         if i is not None:
             diff = tokens_equal(py_tokens(text), model_tokens(parse_answer(b[i])[1]))
